@@ -85,12 +85,15 @@ def shouldKeep (o : PathOpts) (ps : List Bytes) : Bool :=
   if noSelectors o then true
   else xor o.invert (ps.any (pathMatches o))
 
+/-- one `--path-rename OLD:NEW` rule applied to a path -/
+def renameStep (path : Bytes) (r : Bytes × Bytes) : Bytes :=
+  match stripPrefix? path r.1 with
+  | some tail => r.2 ++ tail
+  | none => path
+
 /-- `rewrite_path`: every rule in order, each applied to the current path -/
 def rewritePath (renames : List (Bytes × Bytes)) (p : Bytes) : Bytes :=
-  renames.foldl (fun path (r : Bytes × Bytes) =>
-    match stripPrefix? path r.1 with
-    | some tail => r.2 ++ tail
-    | none => path) p
+  renames.foldl renameStep p
 
 /-- `handle_file_change_line`: `some line'` = keep (rebuilt or verbatim), `none` = drop -/
 def handleFileChangeLine (o : PathOpts) (line : Bytes) : Option Bytes :=
